@@ -9,6 +9,10 @@ Tie between lean/OdmlModel/Model/Query.lean (+ Model/Rdf.lean for the export) an
   * `evalBGP` == rdflib `graph.query` on random small graphs (library contract of the evaluator)
 Oracle: the property restated over the public API: an independent evaluation of every
 non-empty combination of the given pairs on the odML objects themselves.
+
+Streams: match / fuzzy (one search per case, model-tied), reuse (histories over the caller's
+dictionary, finder and graph; every search model-tied), sets and creator (oracle only: special
+document sets; QueryCreator.get_query), bgp and subsets (model pieces against rdflib / the finder).
 """
 import itertools
 import re
@@ -26,7 +30,15 @@ STR_ATTRS = {"Doc": ["author", "version"],
 NAMES = ["a", "b", "ab"]
 TYPES = ["t1", "t2"]
 TEXTS = ["d1", "x y", "a\\b", "it's", u"é", "100%", "a\\qb", "tab\tx", "-", "D. N. Adams", "a;b", "[x]", "?s", "{y}"]
+# strengthening round 2: line breaks of every flavour, texts that differ from a name only by case or by
+# surrounding blanks, the text of Python's None, a multi-digit number, a character outside the BMP
+TEXTS += ["line\nbreak", "cr\rx", u"ls\u2028x", u"nel\x85x", "None", "A", "T1", " a", "b ", "10",
+          u"\U0001F600 x", "a  b"]
 UNITS = ["mV", "s"]
+LONG_WORDS = {"doc": "document", "sec": "section", "prop": "property"}
+SHAPES = ["tuples", "tuples", "lists", "tuple_outer"]
+VIAS = ["graph", "graph", "graph", "turtle", "xml", "n3", "twice"]
+GPASS = ["kw", "kw", "ctor", "pos"]
 
 
 # ----------------------------------------------------------------------------- helpers
@@ -41,7 +53,11 @@ def gen_docs(rng):
         for si in range(rng.choice([0, 1, 2, 3])):
             subs = []
             for ti in range(rng.choice([0, 0, 1, 2])):
-                subs.append(gen_sec(rng, NAMES[ti], []))
+                # a third level now and then: a Section is related to what directly contains it
+                # (rarely: the model's nested-loop evaluation is slow on larger graphs; long chains of
+                # sub-sections are the business of the oracle-only stream `sets`)
+                third = [gen_sec(rng, NAMES[ui], []) for ui in range(rng.choice([0] * 11 + [1]))]
+                subs.append(gen_sec(rng, NAMES[ti], third))
             secs.append(gen_sec(rng, NAMES[si], subs))
         docs.append({"author": pick(rng, ["me", "D. N. Adams", "a\\b"]), "version": pick(rng, ["1", "v2"]),
                      "date": pick(rng, ["2020-01-02"], 0.3), "repository": pick(rng, ["http://x.org/t.xml"], 0.15),
@@ -59,8 +75,15 @@ def gen_sec(rng, name, subs):
                       "unit": pick(rng, UNITS, 0.5), "uncertainty": pick(rng, [{"f": "0.5"}], 0.25),
                       "definition": pick(rng, TEXTS, 0.4), "reference": pick(rng, TEXTS, 0.3),
                       "value_origin": pick(rng, TEXTS, 0.3)})
-    return {"name": name, "type": rng.choice(TYPES), "definition": pick(rng, TEXTS, 0.4),
-            "reference": pick(rng, TEXTS, 0.3), "repository": None, "props": props, "subs": subs}
+    # now and then one text in two attributes of one object (a combination asking for both has a hit)
+    for p in props:
+        if p["definition"] is not None and rng.random() < 0.3:
+            p[rng.choice(["reference", "value_origin"])] = p["definition"]
+    out = {"name": name, "type": rng.choice(TYPES), "definition": pick(rng, TEXTS, 0.4),
+           "reference": pick(rng, TEXTS, 0.3), "repository": None, "props": props, "subs": subs}
+    if out["definition"] is not None and rng.random() < 0.3:
+        out["reference"] = out["definition"]
+    return out
 
 
 def values_in_docs(docs):
@@ -86,27 +109,123 @@ def values_in_docs(docs):
     return out
 
 
-def render_match(pairs):
-    """dictionary form -> the documented string form `doc(a:v, b:w) sec(...) prop(...)`"""
-    parts = []
-    for key, word in (("Doc", "doc"), ("Sec", "sec"), ("Prop", "prop")):
-        mine = [p for p in pairs if p["k"] == key]
-        if mine:
-            parts.append("%s(%s)" % (word, ", ".join("%s:%s" % (p["a"], p["v"]) for p in mine)))
-    return " ".join(parts)
+def part_order(opts):
+    """the order in which the kinds are written in the string form (any order is documented usage)"""
+    order = [k for k in (opts or {}).get("sorder", []) if k in KEYS]
+    return order + [k for k in KEYS if k not in order]
 
 
-def to_params(pairs):
-    out = {}
-    for p in pairs:
-        val = list(p["vs"]) if p["a"] == "value" and p["k"] == "Prop" else p["v"]
-        out.setdefault(p["k"], []).append((p["a"], val))
+def word_of(key, opts):
+    word = {"Doc": "doc", "Sec": "sec", "Prop": "prop"}[key]
+    return LONG_WORDS[word] if (opts or {}).get("words") == "long" else word
+
+
+def twins_in_docs(docs):
+    """(kind, attribute, other attribute, text): one object carries the text in both attributes"""
+    out = []
+
+    def obj(kind, o):
+        have = [(a, o[a]) for a in STR_ATTRS[kind] if o.get(a)]
+        for i, (a, v) in enumerate(have):
+            for b, w in have[i + 1:]:
+                if v == w:
+                    out.append((kind, a, b, v))
+
+    def sec(s):
+        obj("Sec", s)
+        for p in s["props"]:
+            obj("Prop", p)
+        for c in s["subs"]:
+            sec(c)
+    for d in docs:
+        obj("Doc", d)
+        for s in d["secs"]:
+            sec(s)
     return out
 
 
-def string_safe(pairs):
+def render_match(pairs, opts=None):
+    """dictionary form -> the documented string form `doc(a:v, b:w) sec(...) prop(...)`
+    (opts: the long words document/section/property, the kinds in another order)"""
+    parts = []
+    for key in part_order(opts):
+        mine = [p for p in pairs if p["k"] == key]
+        if mine:
+            parts.append("%s(%s)" % (word_of(key, opts), ", ".join("%s:%s" % (p["a"], p["v"]) for p in mine)))
+    return " ".join(parts)
+
+
+def render_fuzzy(attrs, search, opts=None):
+    return "FIND %s HAVING %s" % (" ".join("%s(%s)" % (word_of(k, opts), ", ".join(attrs[k]))
+                                           for k in part_order(opts) if k in attrs), ", ".join(search))
+
+
+def to_params(pairs, opts=None):
+    out = {}
+    for p in pairs:
+        val = list(p["vs"]) if p["a"] == "value" and p["k"] == "Prop" else p["v"]
+        if isinstance(val, list) and (opts or {}).get("ints"):
+            # the documented example passes numbers: ('value', [20, 25])
+            val = [int(v) if re.match(r"-?[0-9]+$", v) else v for v in val]
+        out.setdefault(p["k"], []).append((p["a"], val))
+    return shape_params(out, "match", opts)
+
+
+def shape_params(params, mode, opts=None):
+    """The caller's dictionary in one of the shapes a caller may use: pairs as tuples (documented) or
+    lists, the collection of pairs / attribute names / search terms a list or a tuple, the keys inserted
+    in any order. Always new objects (outer dictionary and every inner collection)."""
+    opts = opts or {}
+    shape = opts.get("shape", "tuples")
+    order = opts.get("korder") or []
+    keys = sorted(params, key=lambda k: order.index(k) if k in order else len(order))
+    out = {}
+    for k in keys:
+        v = params[k]
+        if mode == "match":
+            inner = list if shape == "lists" else tuple
+            items = [inner(list(x) if isinstance(x, list) else x for x in p) for p in v]
+            out[k] = tuple(items) if shape == "tuple_outer" else items
+        else:
+            out[k] = tuple(v) if shape == "tuple_outer" else list(v)
+    return out
+
+
+def gen_opts(rng):
+    """dimensions of one search that do not change what has to be found"""
+    korder = KEYS + ["Search"]
+    rng.shuffle(korder)
+    sorder = list(KEYS)
+    rng.shuffle(sorder)
+    return {"shape": rng.choice(SHAPES), "korder": korder, "sorder": sorder,
+            "words": rng.choice(["short", "short", "long"]), "via": rng.choice(VIAS),
+            "gpass": rng.choice(GPASS), "ints": rng.random() < 0.5}
+
+
+def xml_safe(specs):
+    """XML 1.0 cannot carry most control characters and normalises line ends: only texts without them go
+    through the RDF/XML file form (a limitation of the file format, not of the search)"""
+    def texts(x):
+        if isinstance(x, str):
+            yield x
+        elif isinstance(x, dict):
+            for v in x.values():
+                for t in texts(v):
+                    yield t
+        elif isinstance(x, (list, tuple)):
+            for v in x:
+                for t in texts(v):
+                    yield t
+    return not any(re.search(u"[\x00-\x1f\x7f-\x9f\u2028\u2029]", t) for t in texts(specs))
+
+
+def string_safe(pairs, lf_ok=False):
+    """Can the string form say these pairs? Values free of the query syntax characters, not blank at the
+    ends, not the value list. A line feed inside a value is no syntax character, but the string form loses
+    the pair (known finding string_form_line_feed): only the oracle-only stream `sets` (lf_ok) sends such a
+    value through the string form, everywhere else the dictionary form is used for it."""
     return all(not re.search(r"[,():\"]", p["v"]) and p["v"] == p["v"].strip() and p["v"] and p["a"] != "value"
-               for p in pairs)
+               and (lf_ok or "\n" not in p["v"]) for p in pairs)
 
 
 def parse_output(text):
@@ -161,8 +280,14 @@ class C20(fw.Check):
     rule = ("random small document sets x match/fuzzy x dictionary/string parameters; 1-3 pairs per kind "
             "with values drawn from the documents (hits) or not (misses); every non-empty combination is "
             "evaluated independently on the odML objects. Plus random small graphs x random basic graph "
-            "patterns (evalBGP vs rdflib) and pure combination cases. Non-trivial = at least one combination "
-            "with a hit; distinct = distinct canonical JSON of the case.")
+            "patterns (evalBGP vs rdflib) and pure combination cases. Per search also: shape and key order of "
+            "the dictionary, long/short words and order of the kinds in the string, the graph as handed out / "
+            "exported text read back / writer asked twice, graph passed as keyword / positionally / to the "
+            "constructor. Histories (reuse): the caller's dictionary, its inner collections, the finder and the "
+            "graph used for several searches, after refused calls too. Oracle-only: special document sets (none, "
+            "one twice, keep_id clone, long chains, many, unnamed objects, linked Sections, numbers as names) "
+            "and QueryCreator.get_query from dictionary / string / a parser used again. Non-trivial = at least "
+            "one combination with a hit; distinct = distinct canonical JSON of the case.")
     quick_n = 110
     case_timeout = 90
     thorough_n = 2500
@@ -175,14 +300,19 @@ class C20(fw.Check):
             if rng.random() < 0.55:
                 for _ in range(rng.choice([1, 1, 2, 3])):
                     mine = [t for t in present if t[0] == key]
-                    if mine and rng.random() < 0.75:
+                    twins = [t for t in mine if any(p["k"] == key and p["v"] == t[2] and p["a"] != t[1]
+                                                    for p in pairs)]
+                    if twins and rng.random() < 0.6:
+                        _k, a, v = rng.choice(twins)      # the text of an earlier pair, in another attribute
+                    elif mine and rng.random() < 0.75:
                         _k, a, v = rng.choice(mine)
                     else:
                         a = rng.choice(STR_ATTRS[key])
-                        v = rng.choice(NAMES + TYPES + TEXTS + UNITS)
+                        v = rng.choice(NAMES + TYPES + TEXTS + UNITS + [""])      # "": no object carries it
                     pairs.append({"k": key, "a": a, "v": v, "vs": []})
         if risky:
-            r = rng.choice(["uncertainty", "date", "id", "value", "repository", "sections"])
+            r = rng.choice(["uncertainty", "date", "id", "value", "repository", "sections",
+                            "doc_sections", "properties", "sec_repository"])
             if r == "uncertainty":
                 pairs.append({"k": "Prop", "a": "uncertainty", "v": "0.5", "vs": []})
             elif r == "date":
@@ -193,6 +323,12 @@ class C20(fw.Check):
                 pairs.append({"k": "Prop", "a": "value", "v": "", "vs": rng.choice([["20"], ["x"], ["20", "25"]])})
             elif r == "repository":
                 pairs.append({"k": "Doc", "a": "repository", "v": "http://x.org/t.xml", "vs": []})
+            elif r == "doc_sections":
+                pairs.append({"k": "Doc", "a": "sections", "v": "a", "vs": []})
+            elif r == "properties":
+                pairs.append({"k": "Sec", "a": "properties", "v": "a", "vs": []})
+            elif r == "sec_repository":
+                pairs.append({"k": "Sec", "a": "repository", "v": "http://x.org/t.xml", "vs": []})
             else:
                 pairs.append({"k": "Sec", "a": "sections", "v": "x", "vs": []})
         if len(pairs) > 4:
@@ -201,32 +337,189 @@ class C20(fw.Check):
             pairs.append({"k": "Sec", "a": "name", "v": "a", "vs": []})
         return pairs
 
+    # attribute names of the RDF model that are not plain texts (fuzzy mode: building and running never fails)
+    OTHER_ATTRS = {"Doc": ["id", "date", "repository", "sections"],
+                   "Sec": ["id", "repository", "sections", "properties"],
+                   "Prop": ["id", "uncertainty"]}
+
+    def gen_fuzzy(self, rng, docs, risky=False, limit=3):
+        attrs = {}
+        for key in KEYS:
+            if rng.random() < 0.6:
+                attrs[key] = rng.sample(STR_ATTRS[key], rng.choice([1, 1, 2]))
+        if not attrs:
+            attrs["Sec"] = ["name"]
+        if risky:
+            key = rng.choice(KEYS)
+            attrs.setdefault(key, []).insert(0, rng.choice(self.OTHER_ATTRS[key]))
+        # the finder runs one query per combination: keep the number of pairs small
+        while sum(len(v) for v in attrs.values()) > limit:
+            k = rng.choice(sorted(attrs))
+            attrs[k] = attrs[k][:-1]
+            if not attrs[k]:
+                del attrs[k]
+        present = [t[2] for t in values_in_docs(docs)]
+        search = [rng.choice(present) if present and rng.random() < 0.7 else rng.choice(NAMES + TEXTS + [""])
+                  for _ in range(rng.choice([1, 2]))]
+        # one term asked of two attributes of an object that carries it in both
+        twins = twins_in_docs(docs)
+        if twins and not risky and rng.random() < 0.5:
+            key, a, b, val = rng.choice(twins)
+            others = [(k, v[:1]) for k, v in sorted(attrs.items()) if k != key]
+            attrs = dict(others[:max(0, limit - 2)])
+            attrs[key] = [a, b]
+            search[0] = val
+            return attrs, search
+        # more often than not one attribute / term pair is taken from an object of the documents (a hit)
+        anchors = [t for t in values_in_docs(docs) if t[0] in attrs]
+        if anchors and rng.random() < 0.7:
+            key, attr, val = rng.choice(anchors)
+            if attr not in attrs[key]:
+                attrs[key][-1] = attr
+            if val not in search:
+                search[0] = val
+        return attrs, search
+
+    def small_pairs(self, rng, docs, limit=3):
+        pairs = self.gen_pairs(rng, docs, False)
+        rng.shuffle(pairs)
+        return pairs[:limit]
+
+    def gen_reuse(self, rng, n):
+        """Operation histories: what the caller holds - the parameter dictionary, the collections inside it,
+        the finder, the graph - is used for more than one search (a repeat, another document set, another
+        finder), with copies and the string form in between and after calls that were refused."""
+        cases = []
+        for i in range(n):
+            sets = [gen_docs(rng) for _ in range(rng.choice([1, 2, 2]))]
+            both = [d for s in sets for d in s]
+            opts = gen_opts(rng)
+            case = {"stream": "reuse", "sets": sets,
+                    "opts": {"shape": opts["shape"], "korder": opts["korder"], "sorder": opts["sorder"],
+                             "words": opts["words"]}}
+            if i % 2 == 0:
+                case["mode"] = "fuzzy"
+                case["attrs"], case["search"] = self.gen_fuzzy(rng, both, limit=2)
+            else:
+                case["mode"] = "match"
+                case["pairs"] = self.small_pairs(rng, both, 3)
+            steps = []
+            for _s in range(rng.choice([2, 2, 3])):
+                steps.append({"g": rng.randrange(len(sets)),
+                              "finder": rng.choice(["new", "new", "same", "same", "ctor"]),
+                              "params": rng.choice(["same", "same", "same", "inner", "copy", "str"]),
+                              "pre": rng.choice([None, None, None, "mode", "both", "neither"])})
+            # the caller's dictionary is used at least twice
+            steps[0]["params"] = "same"
+            steps[-1]["params"] = rng.choice(["same", "same", "inner"])
+            case["steps"] = steps
+            cases.append(case)
+        return cases
+
+    SET_KINDS = ["empty", "twice", "clone", "deep", "many", "unnamed", "link", "numeric", "plain", "plain"]
+
+    def gen_sets(self, rng, n):
+        """Document sets the Lean model is not asked about (oracle only): no document at all, one document
+        twice, a keep_id clone next to its original, long chains of sub-sections, many documents, objects
+        without a name (the id serves as name), linked Sections (merged view), names that are numbers."""
+        cases = []
+        for i in range(n):
+            kind = self.SET_KINDS[i % len(self.SET_KINDS)]
+            docs = gen_docs(rng)
+            post = []
+            extra = []
+            if kind == "empty":
+                docs = []
+            elif kind == "twice":
+                post.append({"op": "twice", "doc": rng.randrange(len(docs))})
+            elif kind == "clone":
+                post.append({"op": "clone", "doc": rng.randrange(len(docs))})
+            elif kind == "deep":
+                chain = []
+                for lvl in range(rng.choice([4, 5, 7])):
+                    chain = [gen_sec(rng, NAMES[lvl % 3], chain)]
+                docs[0]["secs"] = chain
+            elif kind == "many":
+                while len(docs) < 5:
+                    docs += gen_docs(rng)
+            elif kind == "unnamed":
+                if not docs[0]["secs"]:
+                    docs[0]["secs"].append(gen_sec(rng, "a", []))
+                first = docs[0]["secs"][0]
+                if not first["props"]:
+                    first["props"].append({"name": "a", "dtype": None, "values": [], "unit": "mV",
+                                           "uncertainty": None, "definition": None, "reference": None,
+                                           "value_origin": None})
+                first["name"] = None
+                first["props"][0]["name"] = None
+                extra = [{"k": "Sec", "a": "name", "v": "@first", "vs": []},
+                         {"k": "Prop", "a": "name", "v": "@first", "vs": []}]
+            elif kind == "link":
+                for di, d in enumerate(docs):
+                    if len(d["secs"]) >= 2:
+                        j, k = rng.sample(range(len(d["secs"])), 2)
+                        post.append({"op": "link", "doc": di, "sec": j, "to": "/" + d["secs"][k]["name"]})
+            elif kind == "numeric":
+                number = {"a": "1", "b": "10", "ab": "2"}
+
+                def renumber(s):
+                    s["name"] = number[s["name"]]
+                    s["type"] = rng.choice(["1", "10"])
+                    for p in s["props"]:
+                        p["name"] = number[p["name"]]
+                    for c in s["subs"]:
+                        renumber(c)
+                for d in docs:
+                    d["version"] = rng.choice(["1", "10", "1.0"])
+                    for s in d["secs"]:
+                        renumber(s)
+            case = {"stream": "sets", "kind": kind, "docs": docs, "post": post, "opts": gen_opts(rng),
+                    "how": rng.choice(["dict", "str"])}
+            if i % 3 == 2:
+                case["mode"] = "fuzzy"
+                case["attrs"], case["search"] = self.gen_fuzzy(rng, docs)
+            else:
+                case["mode"] = "match"
+                pairs = self.small_pairs(rng, docs, 3)
+                if extra:
+                    pairs = extra[:rng.choice([1, 2])] + pairs[:2]
+                case["pairs"] = pairs
+            cases.append(case)
+        return cases
+
+    def gen_creator(self, rng, n):
+        """The other entry point, QueryCreator.get_query: one query from all pairs, from the dictionary or
+        from the string through a parser; several queries one after the other, a parser object used again."""
+        cases = []
+        for _i in range(n):
+            docs = gen_docs(rng)
+            steps = []
+            for _s in range(rng.choice([1, 2, 3])):
+                opts = gen_opts(rng)
+                steps.append({"pairs": self.small_pairs(rng, docs, 3), "entry": rng.choice(["dict", "str", "str"]),
+                              "parser": rng.choice(["new", "new", "same"]), "repeat": rng.random() < 0.3,
+                              "opts": {"shape": opts["shape"], "korder": opts["korder"], "sorder": opts["sorder"],
+                                       "words": opts["words"]}})
+            cases.append({"stream": "creator", "docs": docs, "steps": steps})
+        return cases
+
     def generate(self, tier, rng):
         n = self.quick_n if tier == "quick" else self.thorough_n
         cases = []
         for i in range(n):
             docs = gen_docs(rng)
             if i % 4 == 3:
-                attrs = {}
-                for key in KEYS:
-                    if rng.random() < 0.6:
-                        attrs[key] = rng.sample(STR_ATTRS[key], rng.choice([1, 1, 2]))
-                if not attrs:
-                    attrs["Sec"] = ["name"]
-                # the finder runs one query per combination: keep the number of pairs small
-                while sum(len(v) for v in attrs.values()) > 3:
-                    k = rng.choice(sorted(attrs))
-                    attrs[k] = attrs[k][:-1]
-                    if not attrs[k]:
-                        del attrs[k]
-                present = [t[2] for t in values_in_docs(docs)]
-                search = [rng.choice(present) if present and rng.random() < 0.7 else rng.choice(NAMES + TEXTS)
-                          for _ in range(rng.choice([1, 2]))]
+                attrs, search = self.gen_fuzzy(rng, docs, risky=(i % 16 == 7))
                 cases.append({"stream": "fuzzy", "docs": docs, "attrs": attrs, "search": search,
-                              "how": rng.choice(["dict", "str"])})
+                              "how": rng.choice(["dict", "str"]), "opts": gen_opts(rng)})
             else:
-                cases.append({"stream": "match", "docs": docs, "pairs": self.gen_pairs(rng, docs, i % 8 == 1),
-                              "how": rng.choice(["dict", "str"])})
+                pairs = self.gen_pairs(rng, docs, i % 8 == 1)
+                rng.shuffle(pairs)
+                cases.append({"stream": "match", "docs": docs, "pairs": pairs,
+                              "how": rng.choice(["dict", "str"]), "opts": gen_opts(rng)})
+        cases += self.gen_reuse(rng, 44 if tier == "quick" else 400)
+        cases += self.gen_sets(rng, 40 if tier == "quick" else 500)
+        cases += self.gen_creator(rng, 40 if tier == "quick" else 500)
         m = 150 if tier == "quick" else 3000
         terms = [["i", "ex:a"], ["i", "ex:b"], ["i", "ex:c"], ["l", "x", ""], ["l", "y", ""],
                  ["l", "1", c10.XSD + "integer"], ["l", "x", c10.XSD + "string"]]
@@ -261,6 +554,10 @@ class C20(fw.Check):
             return self.impl_bgp(case)
         if st == "subsets":
             return self.impl_subsets(case)
+        if st == "reuse":
+            return self.impl_reuse(case)
+        if st == "creator":
+            return self.impl_creator(case)
         return self.impl_find(case)
 
     @staticmethod
@@ -309,88 +606,289 @@ class C20(fw.Check):
             return {"skipped": "no _generate_parameters_subsets"}
 
     def resolve_pairs(self, case, docs_built):
-        """replace the placeholder id value by the id of the first object of the kind"""
+        """replace the placeholder value by the id (attribute id) or the name (attribute name: an object
+        created without a name is named by its id) of the first object of the kind"""
         pairs = []
         for p in case["pairs"]:
             p = dict(p)
-            if p["v"] == "@first" and p["a"] == "id":
+            if p["v"] == "@first" and p["a"] in ("id", "name"):
                 obj = None
-                d = docs_built[0]
-                if p["k"] == "Doc":
+                d = docs_built[0] if docs_built else None
+                if d is None:
+                    obj = None
+                elif p["k"] == "Doc":
                     obj = d
                 elif d.sections:
                     obj = d.sections[0] if p["k"] == "Sec" else (d.sections[0].properties[0]
                                                                   if d.sections[0].properties else None)
-                p["v"] = str(obj.id) if obj is not None else "none"
+                p["v"] = str(getattr(obj, p["a"])) if obj is not None else "none"
             pairs.append(p)
         return pairs
 
-    def impl_find(self, case):
-        import warnings
+    # -- pieces of one search ------------------------------------------------
+    @staticmethod
+    def build_set(specs, post=()):
+        """the document set of a case: the documents of the specs, then the post operations"""
+        docs = [c10.build_doc(d) for d in specs]
+        for op in post or ():
+            if op["op"] == "twice":
+                docs.append(docs[op["doc"]])
+            elif op["op"] == "clone":
+                docs.append(docs[op["doc"]].clone(keep_id=True))
+            elif op["op"] == "link":
+                # the merge behind a link refuses some pairs of Sections (clashing children, values of
+                # another type): that is set-up, not the search - such a document stays without the link
+                try:
+                    docs[op["doc"]].sections[op["sec"]].link = op["to"]
+                except Exception:
+                    docs[op["doc"]] = c10.build_doc(specs[op["doc"]])
+        return docs
+
+    @staticmethod
+    def make_graph(docs, specs, via="graph", linked=False):
+        """the RDF export of the set: the graph the writer hands out, the graph of a writer that is asked
+        twice, or the exported text (turtle, RDF/XML, n3) read back.
+        (A writer asked twice keeps the triples of its first conversion; with linked Sections every
+        conversion resolves the links anew, under new ids, so that graph describes objects the documents no
+        longer have. What the export contains is property C10's business: no second conversion there.)"""
+        import rdflib
         from odml.tools.rdf_converter import RDFWriter
+        writer = RDFWriter(docs, rdf_subclassing=False)
+        if via == "twice" and not linked:
+            writer.convert_to_rdf()
+            return writer.convert_to_rdf()
+        if via in ("turtle", "n3") or (via == "xml" and xml_safe(specs)):
+            text = writer.get_rdf_str(via)
+            if isinstance(text, bytes):
+                text = text.decode("utf-8")
+            graph = rdflib.Graph()
+            graph.parse(data=text, format=via)
+            return graph
+        return writer.convert_to_rdf()
+
+    @staticmethod
+    def call_find(mode, graph, gpass="kw", q_str=None, q_params=None, finder=None):
+        """-> (finder, text); the graph is handed over as keyword, positionally or to the constructor"""
         from odml.rdf.fuzzy_finder import FuzzyFinder
-        warnings.simplefilter("ignore")
-        docs = [c10.build_doc(d) for d in case["docs"]]
-        snap = [c10.snap_doc(d) for d in docs]
-        graph = RDFWriter(docs, rdf_subclassing=False).convert_to_rdf()
-        obs = {"docs": snap}
-        if case["stream"] == "fuzzy":
-            pairs = [{"k": k, "a": a, "v": v, "vs": []} for k in KEYS if k in case["attrs"]
-                     for a in case["attrs"][k] for v in case["search"]]
-            params = dict((k, list(v)) for k, v in case["attrs"].items())
-            params["Search"] = list(case["search"])
-            words = {"Doc": "doc", "Sec": "sec", "Prop": "prop"}
-            q_str = "FIND %s HAVING %s" % (" ".join("%s(%s)" % (words[k], ", ".join(case["attrs"][k]))
-                                                    for k in KEYS if k in case["attrs"]),
-                                           ", ".join(case["search"]))
-            str_ok = all(not re.search(r"[,():\"]", v) and v == v.strip() and v for v in case["search"])
-            mode = "fuzzy"
-        else:
-            pairs = self.resolve_pairs(case, docs)
-            params = to_params(pairs)
-            q_str = render_match(pairs)
-            str_ok = string_safe(pairs)
-            mode = "match"
-        obs["pairs"] = pairs
-        use_str = case["how"] == "str" and str_ok
-        obs["used"] = "str" if use_str else "dict"
+        if finder is not None:
+            return finder, finder.find(mode=mode, graph=graph, q_str=q_str, q_params=q_params)
+        if gpass == "ctor":
+            ff = FuzzyFinder(graph=graph)
+            return ff, ff.find(mode=mode, q_str=q_str, q_params=q_params)
         ff = FuzzyFinder()
-        try:
-            if use_str:
-                text = ff.find(mode=mode, graph=graph, q_str=q_str)
-            else:
-                text = ff.find(mode=mode, graph=graph, q_params=params)
-            obs["blocks"] = [[q, sorted(row_key(r) for r in rows)] for q, rows in parse_output(text)]
-        except Exception as exc:
-            obs["raised"] = fw.exc_name(exc)
-            return obs
-        # which combination does a block belong to (opportunistic use of the finder's own list)
+        if gpass == "pos":
+            return ff, ff.find(mode, graph, q_str, q_params)
+        return ff, ff.find(mode=mode, graph=graph, q_str=q_str, q_params=q_params)
+
+    @staticmethod
+    def blocks_of(text):
+        return [[q, sorted(row_key(r) for r in rows)] for q, rows in parse_output(text)]
+
+    @staticmethod
+    def executed_of(ff):
+        """which combination does a block belong to (opportunistic use of the finder's own list)"""
+        from odml.rdf.fuzzy_finder import FuzzyFinder
         try:
             executed = []
             for sub in ff._subsets:
                 creator = FuzzyFinder._prepare_query(sub)
                 creator._prepare_query()
-                executed.append([[{"k": a[0], "a": a[1][0], "v": "" if isinstance(a[1][1], list) else a[1][1],
-                                   "vs": list(a[1][1]) if isinstance(a[1][1], list) else []} for a in sub],
-                                 creator.query])
-            obs["executed"] = executed
+                executed.append([[{"k": a[0], "a": a[1][0], "v": "" if isinstance(a[1][1], (list, tuple)) else a[1][1],
+                                   "vs": [u"%s" % x for x in a[1][1]] if isinstance(a[1][1], (list, tuple)) else []}
+                                  for a in sub], creator.query])
+            return executed
         except Exception:
-            obs["executed"] = None
+            return None
+
+    def query_of(self, case, docs, lf_ok=False):
+        """-> (mode, pairs, parameter dictionary as plain data, string form, string form usable)"""
+        opts = case.get("opts")
+        mode = case.get("mode") or case["stream"]
+        if mode == "fuzzy":
+            pairs = [{"k": k, "a": a, "v": v, "vs": []} for k in KEYS if k in case["attrs"]
+                     for a in case["attrs"][k] for v in case["search"]]
+            plain = dict((k, list(v)) for k, v in case["attrs"].items())
+            plain["Search"] = list(case["search"])
+            q_str = render_fuzzy(case["attrs"], case["search"], opts)
+            str_ok = all(not re.search(r"[,():\"]", v) and v == v.strip() and v and (lf_ok or "\n" not in v)
+                         for v in case["search"])
+            return mode, pairs, plain, q_str, str_ok
+        pairs = self.resolve_pairs(case, docs)
+        return "match", pairs, None, render_match(pairs, opts), string_safe(pairs, lf_ok)
+
+    def params_of(self, mode, pairs, plain, opts):
+        """a new parameter dictionary (new outer and inner objects) for the query"""
+        return shape_params(plain, "fuzzy", opts) if mode == "fuzzy" else to_params(pairs, opts)
+
+    def impl_find(self, case):
+        import warnings
+        from odml.rdf.fuzzy_finder import FuzzyFinder
+        warnings.simplefilter("ignore")
+        opts = case.get("opts") or {}
+        docs = self.build_set(case["docs"], case.get("post"))
+        snap = [c10.snap_doc(d) for d in docs]
+        graph = self.make_graph(docs, case["docs"], opts.get("via", "graph"),
+                                linked=any(op["op"] == "link" for op in case.get("post") or ()))
+        obs = {"docs": snap}
+        mode, pairs, plain, q_str, str_ok = self.query_of(case, docs, lf_ok=(case["stream"] == "sets"))
+        params = self.params_of(mode, pairs, plain, opts)
+        obs["pairs"] = pairs
+        obs["mode"] = mode
+        use_str = case["how"] == "str" and str_ok
+        obs["used"] = "str" if use_str else "dict"
+        try:
+            if use_str:
+                ff, text = self.call_find(mode, graph, opts.get("gpass", "kw"), q_str=q_str)
+            else:
+                ff, text = self.call_find(mode, graph, opts.get("gpass", "kw"), q_params=params)
+            obs["blocks"] = self.blocks_of(text)
+        except Exception as exc:
+            obs["raised"] = fw.exc_name(exc)
+            return obs
+        obs["executed"] = self.executed_of(ff)
         # the other way of passing the same parameters must give the same answer
         if str_ok:
             try:
-                other = FuzzyFinder().find(mode=mode, graph=graph, q_params=params) if use_str else \
-                    FuzzyFinder().find(mode=mode, graph=graph, q_str=q_str)
-                obs["other_blocks"] = [[q, sorted(row_key(r) for r in rows)] for q, rows in parse_output(other)]
+                other = FuzzyFinder().find(mode=mode, graph=graph, q_params=self.params_of(mode, pairs, plain, opts)) \
+                    if use_str else FuzzyFinder().find(mode=mode, graph=graph, q_str=q_str)
+                obs["other_blocks"] = self.blocks_of(other)
             except Exception as exc:
                 obs["other_raised"] = fw.exc_name(exc)
         if mode == "fuzzy":
             try:
                 text2 = FuzzyFinder().find(mode="match", graph=graph, q_params=to_params(pairs))
-                obs["as_match_blocks"] = [[q, sorted(row_key(r) for r in rows)] for q, rows in parse_output(text2)]
+                obs["as_match_blocks"] = self.blocks_of(text2)
             except Exception as exc:
                 obs["as_match_raised"] = fw.exc_name(exc)
         obs["expected"] = self.expected(docs, pairs)
+        return obs
+
+    def impl_reuse(self, case):
+        """several searches with the objects of one caller; every search is observed on its own"""
+        import warnings
+        from odml.rdf.fuzzy_finder import FuzzyFinder
+        from odml.tools.rdf_converter import RDFWriter
+        warnings.simplefilter("ignore")
+        opts = case.get("opts") or {}
+        docsets = [self.build_set(specs) for specs in case["sets"]]
+        graphs = [RDFWriter(ds, rdf_subclassing=False).convert_to_rdf() for ds in docsets]
+        mode, pairs, plain, q_str, str_ok = self.query_of(case, docsets[0])
+        shared = self.params_of(mode, pairs, plain, opts)       # the dictionary the caller keeps
+        obs = {"sets": [[c10.snap_doc(d) for d in ds] for ds in docsets], "pairs": pairs, "steps": []}
+        expected = [self.expected(ds, pairs) for ds in docsets]
+        kept = {"finder": None, "first": None}
+        for step in case["steps"]:
+            gi = step["g"] % len(graphs)
+            graph = graphs[gi]
+            o = {"g": gi}
+            how = step["params"]
+            if how == "str" and not str_ok:
+                how = "copy"
+            if how == "same":
+                obj = shared
+            elif how == "inner":
+                obj = dict(shared)            # another dictionary, the same collections inside
+            else:
+                obj = self.params_of(mode, pairs, plain, opts)
+            kw = {"q_str": q_str} if how == "str" else {"q_params": obj}
+            o["params"] = how
+            if step["finder"] == "same":
+                if kept["finder"] is None:
+                    kept["finder"], kept["first"] = FuzzyFinder(), gi
+                ff = kept["finder"]
+            elif step["finder"] == "ctor":
+                ff = FuzzyFinder(graph=graph)
+            else:
+                ff = FuzzyFinder()
+            o["finder"] = step["finder"]
+            # a call that is refused (unknown mode; string and dictionary at once; neither of them) before
+            try:
+                if step.get("pre") == "mode":
+                    ff.find(mode="exact", graph=graph, **kw)
+                elif step.get("pre") == "both":
+                    ff.find(mode=mode, graph=graph, q_str=q_str or "x", q_params=obj)
+                elif step.get("pre") == "neither":
+                    ff.find(mode=mode, graph=graph)
+            except Exception:
+                pass
+            try:
+                if step["finder"] == "ctor":
+                    text = ff.find(mode=mode, **kw)
+                else:
+                    text = ff.find(mode=mode, graph=graph, **kw)
+                o["blocks"] = self.blocks_of(text)
+                o["executed"] = self.executed_of(ff)
+            except Exception as exc:
+                o["raised"] = fw.exc_name(exc)
+            # for the narrow classification of the known finding "a finder keeps its first graph": does a
+            # finder that is used again, with another graph, answer exactly what a new finder answers with
+            # new parameters on the graph of its first search?
+            o["stale_graph"] = False
+            if step["finder"] == "same" and gi != kept["first"] and "blocks" in o:
+                try:
+                    ref = FuzzyFinder().find(mode=mode, graph=graphs[kept["first"]],
+                                             q_params=self.params_of(mode, pairs, plain, opts))
+                    o["stale_graph"] = self.blocks_of(ref) == o["blocks"]
+                except Exception:
+                    pass
+            o["expected"] = expected[gi]
+            obs["steps"].append(o)
+        return obs
+
+    def impl_creator(self, case):
+        """QueryCreator.get_query: the query of all pairs at once, run on the exported graph"""
+        import warnings
+        from odml.rdf.query_creator import QueryCreator, QueryParser
+        from odml.tools.rdf_converter import RDFWriter
+        warnings.simplefilter("ignore")
+        docs = self.build_set(case["docs"])
+        graph = RDFWriter(docs, rdf_subclassing=False).convert_to_rdf()
+        obs = {"steps": []}
+        shared_parser = None
+        left = {}                  # kind -> pairs of the last string the shared parser read that named the kind
+
+        def rows_of(prepared):
+            rows = []
+            for row in graph.query(prepared):
+                d = row.asdict()
+                rows.append(row_key([d.get("d"), d.get("s"), d.get("p")]))
+            return sorted(set(map(tuple, rows)))
+        for step in case["steps"]:
+            pairs = step["pairs"]
+            opts = step.get("opts")
+            entry = step["entry"] if string_safe(pairs) else "dict"
+            o = {"pairs": pairs, "entry": entry, "parser": step["parser"] if entry == "str" else None,
+                 "leftover": False}
+            leftover = []
+            try:
+                if entry == "dict":
+                    creator = QueryCreator(to_params(pairs, opts))
+                    args = ()
+                else:
+                    if step["parser"] == "same":
+                        if shared_parser is None:
+                            shared_parser = QueryParser()
+                        parser = shared_parser
+                        kinds = set(p["k"] for p in pairs)
+                        leftover = [p for k in sorted(left) if k not in kinds for p in left[k]]
+                        for k in kinds:
+                            left[k] = [p for p in pairs if p["k"] == k]
+                    else:
+                        parser = QueryParser()
+                    creator = QueryCreator()
+                    args = (render_match(pairs, opts), parser)
+                o["rows"] = [list(r) for r in rows_of(creator.get_query(*args))]
+                if step.get("repeat"):
+                    o["again"] = [list(r) for r in rows_of(creator.get_query(*args))]
+            except Exception as exc:
+                o["raised"] = fw.exc_name(exc)
+            o["expected"] = sorted(set(map(tuple, (row_key(r) for r in self.direct(docs, pairs)))))
+            o["expected"] = [list(r) for r in o["expected"]]
+            if leftover and "rows" in o:
+                # narrow classification of the known finding "a QueryParser keeps the kinds of earlier strings"
+                both = sorted(set(map(tuple, (row_key(r) for r in self.direct(docs, pairs + leftover)))))
+                o["leftover"] = [list(r) for r in both] == o["rows"]
+            obs["steps"].append(o)
         return obs
 
     # independent evaluation of every non-empty combination on the odML objects
@@ -466,6 +964,11 @@ class C20(fw.Check):
             return [{"op": "bgp", "triples": obs["triples"], "pats": case["pats"]}]
         if st == "subsets":
             return [] if "skipped" in obs else [{"op": "subsets", "pairs": case["pairs"]}]
+        if st in ("sets", "creator"):
+            return []              # oracle only: document sets / an entry point the model is not asked about
+        if st == "reuse":
+            # the model has no caller objects: every search of the history is one `find` of the model
+            return [{"op": "find", "docs": docs, "pairs": obs["pairs"]} for docs in obs["sets"]]
         reqs = [{"op": "find", "docs": obs["docs"], "pairs": obs["pairs"]}]
         if st == "fuzzy":
             reqs.append({"op": "fuzzy", "doc": case["attrs"].get("Doc", []), "sec": case["attrs"].get("Sec", []),
@@ -493,7 +996,24 @@ class C20(fw.Check):
                 out.append("combinations differ: model %s, implementation %s"
                            % ([self.pkey(s) for s in answers[0]][:4], [self.pkey(s) for s in obs["subsets"]][:4]))
             return out
-        ans = answers[0]
+        if st in ("sets", "creator"):
+            return out
+        if st == "reuse":
+            for i, o in enumerate(obs["steps"]):
+                if o.get("stale_graph"):
+                    continue       # known finding finder_keeps_first_graph: the answer is about another graph
+                out += ["step %d: %s" % (i, d) for d in self.compare_find(answers[o["g"]], o)]
+            return out
+        out = self.compare_find(answers[0], obs)
+        if st == "fuzzy" and len(answers) > 1 and "raised" not in obs and answers[0]["found"] != "parse-error":
+            f = answers[1]
+            if self.pkey(f["pairs"]) != self.pkey(obs["pairs"]) or self.pkey(f["as_match"]) != self.pkey(obs["pairs"]):
+                out.append("fuzzy pairs differ: model %s, implementation %s" % (self.pkey(f["pairs"]), self.pkey(obs["pairs"])))
+        return out
+
+    def compare_find(self, ans, obs):
+        """one search of the implementation (blocks, executed) against one `find` of the model"""
+        out = []
         if "raised" in obs:
             if ans["found"] != "parse-error":
                 out.append("implementation raised %s, model finds %d blocks" % (obs["raised"], len(ans["found"])))
@@ -527,10 +1047,6 @@ class C20(fw.Check):
             if len(ans["found"]) != len(obs["blocks"]):
                 out.append("model reports %d combinations with hits, implementation %d"
                            % (len(ans["found"]), len(obs["blocks"])))
-        if st == "fuzzy" and len(answers) > 1:
-            f = answers[1]
-            if self.pkey(f["pairs"]) != self.pkey(obs["pairs"]) or self.pkey(f["as_match"]) != self.pkey(obs["pairs"]):
-                out.append("fuzzy pairs differ: model %s, implementation %s" % (self.pkey(f["pairs"]), self.pkey(obs["pairs"])))
         return out
 
     # -- oracle --------------------------------------------------------------
@@ -542,13 +1058,19 @@ class C20(fw.Check):
     def oracle(self, case, obs):
         if "harness_exception" in obs or case["stream"] in ("bgp", "subsets"):
             return []
-        out = []
-        pairs = obs["pairs"]
-        in_model = all(p["a"] in self.MODEL_NAMES[p["k"]] for p in pairs)
-        if "raised" in obs:
-            if in_model:
-                out.append("find raised %s for attribute names of the RDF model: %s" % (obs["raised"], self.pkey(pairs)))
+        if case["stream"] == "reuse":
+            # Every search of a history is judged on its own, against what the caller wrote into the
+            # parameters. (Weaker reading: that the library leaves the caller's dictionary untouched is not
+            # demanded as such - only that a later search with it still reports what its contents ask for.)
+            out = []
+            for i, o in enumerate(obs["steps"]):
+                out += ["step %d: %s" % (i, f) for f in self.judge(obs["pairs"], o)]
             return out
+        if case["stream"] == "creator":
+            return self.oracle_creator(case, obs)
+        if "raised" in obs:
+            return self.judge(obs["pairs"], obs)
+        out = []
         if "other_raised" in obs:
             out.append("string/dictionary form raised %s" % obs["other_raised"])
         elif "other_blocks" in obs and obs["other_blocks"] != obs["blocks"]:
@@ -557,7 +1079,17 @@ class C20(fw.Check):
             out.append("match search on the fuzzy pairs raised %s" % obs["as_match_raised"])
         elif "as_match_blocks" in obs and obs["as_match_blocks"] != obs["blocks"]:
             out.append("fuzzy search differs from the match search on the attribute=term pairs")
-        # every non-empty combination, most specific first, hit-less omitted
+        return out + self.judge(obs["pairs"], obs)
+
+    def judge(self, pairs, obs):
+        """one search: never fails for names of the RDF model; every non-empty combination, most specific
+        first, hit-less omitted, exactly the rows of the independent evaluation"""
+        out = []
+        in_model = all(p["a"] in self.MODEL_NAMES[p["k"]] for p in pairs)
+        if "raised" in obs:
+            if in_model:
+                out.append("find raised %s for attribute names of the RDF model: %s" % (obs["raised"], self.pkey(pairs)))
+            return out
         want = [e for e in obs["expected"] if e["rows"]]
         got = obs["blocks"]
         if any(not rows for _q, rows in got):
@@ -578,6 +1110,19 @@ class C20(fw.Check):
                     extra = [r for r in b if r not in a]
                     out.append("combination %s: missing %d rows, %d rows that do not carry the values"
                                % (fw.canon(self.pkey(e["pairs"])), len(missing), len(extra)))
+            # a reported block has to belong to a combination of the given pairs
+            asked = set(fw.canon(self.pkey(e["pairs"])) for e in obs["expected"])
+            texts = dict((e[1], fw.canon(self.pkey(e[0]))) for e in obs["executed"])
+            for q, rows in got:
+                if rows and texts.get(q) not in asked:
+                    out.append("a block is reported that belongs to no combination of the given pairs")
+                    break
+            # ... and is reported once per combination (the same pair given twice makes two combinations)
+            wanted = [fw.canon(self.pkey(e["pairs"])) for e in obs["expected"]]
+            for q in set(q for q, _rows in got):
+                if texts.get(q) in asked and [g[0] for g in got].count(q) > wanted.count(texts[q]):
+                    out.append("a combination is reported more than once")
+                    break
             pos = dict((q, i) for i, (q, _r) in enumerate(got))
             order = []
             for e in obs["executed"]:
@@ -591,8 +1136,58 @@ class C20(fw.Check):
                        % (len(got_rows), len(want_rows)))
         return out
 
+    def oracle_creator(self, case, obs):
+        out = []
+        for i, o in enumerate(obs["steps"]):
+            in_model = all(p["a"] in self.MODEL_NAMES[p["k"]] for p in o["pairs"])
+            if "raised" in o:
+                if in_model:
+                    out.append("query %d: get_query raised %s for attribute names of the RDF model: %s"
+                               % (i, o["raised"], self.pkey(o["pairs"])))
+                continue
+            a = sorted(map(tuple, o["expected"]))
+            b = sorted(map(tuple, o["rows"]))
+            if a != b:
+                out.append("query %d (%s): missing %d rows, %d rows that do not carry the values"
+                           % (i, o["entry"], len([r for r in a if r not in b]), len([r for r in b if r not in a])))
+            # Asking the same creator for the same query again gives the same query. (Weaker reading: what
+            # a creator that already holds parameters does with *another* string is not demanded.)
+            if "again" in o and o["again"] != o["rows"]:
+                out.append("query %d: the same creator asked again for the same query gives other rows" % i)
+        return out
+
     def finding_key(self, case, obs, failure):
+        st = case.get("stream")
+        if st == "reuse":
+            m = re.match(r"step (\d+): ", failure)
+            if m and obs["steps"][int(m.group(1))].get("stale_graph"):
+                return "finder_keeps_first_graph"
+            return None
+        if st == "creator":
+            m = re.match(r"query (\d+) \(str\): missing \d+ rows, \d+ rows", failure)
+            if m:
+                o = obs["steps"][int(m.group(1))]
+                if o.get("parser") == "same" and o.get("leftover") is True:
+                    return "parser_keeps_earlier_kinds"
+            return None
+        if st == "sets" and case.get("kind") == "empty" and not case.get("docs") \
+                and obs.get("raised") == "ValueError" and failure.startswith("find raised ValueError"):
+            return "empty_graph_refused"
         m = re.match(r"combination (.*): missing (\d+) rows, (\d+) rows that do not carry the values$", failure)
+        if st == "sets":
+            # a line feed in a value that went through the string form: the kind of object it is asked of
+            # (match) / the search terms from it on (fuzzy) are lost
+            lf = set(p["k"] for p in obs.get("pairs", []) if "\n" in p["v"])
+            if lf and failure == "string and dictionary form of the query give different answers":
+                return "string_form_line_feed"
+            if lf and obs.get("used") == "str" and obs.get("mode") == "fuzzy" and \
+                    failure == "fuzzy search differs from the match search on the attribute=term pairs":
+                return "string_form_line_feed"
+            if lf and m and m.group(3) == "0" and obs.get("used") == "str":
+                import json
+                if obs.get("mode") == "fuzzy" or any(k[0] in lf for k in json.loads(m.group(1))):
+                    return "string_form_line_feed"
+            return None
         if m and m.group(3) == "0":
             import json
             keys = json.loads(m.group(1))
@@ -609,7 +1204,15 @@ class C20(fw.Check):
         st = case["stream"]
         if st in ("bgp", "subsets"):
             return (st, bool(obs.get("rows") or obs.get("subsets")))
+        if st == "reuse":
+            hit = any(o.get("blocks") for o in obs.get("steps", []))
+            return ("reuse:%s:%s" % (case.get("mode"), "hit" if hit else "miss"), hit)
+        if st == "creator":
+            hit = any(o.get("rows") for o in obs.get("steps", []))
+            return ("creator:%s" % ("hit" if hit else "miss"), hit)
         hit = bool(obs.get("blocks"))
+        if st == "sets":
+            return ("sets:%s:%s" % (case.get("kind"), "hit" if hit else "miss"), hit)
         return ("%s:%s:%s" % (st, obs.get("used"), "hit" if hit else "miss"), hit)
 
 
